@@ -52,6 +52,12 @@ impl std::ops::Deref for Quiet {
     }
 }
 
+impl std::ops::DerefMut for Quiet {
+    fn deref_mut(&mut self) -> &mut Unimock {
+        self.0.as_mut().unwrap()
+    }
+}
+
 impl Drop for Quiet {
     fn drop(&mut self) {
         if let Some(u) = self.0.take() {
